@@ -221,3 +221,28 @@ PROPS["C06"] = dict(
     witnesses={"JournalStorageReplayResult._apply_delete_study:post/deleted/2": "witnesses.f3",
                "JournalStorageReplayResult._apply_set_trial_state_values:post/already-running/2": "witnesses.f4"},
 )
+
+
+# --- journal contracts join C01 / C03 / C04 / C20 ------------------------------------------------------
+def _rel_all(pid, contract, ob):
+    if "journal" in contract.file:
+        kind, name, clause = ob["kind"], ob["name"], str(ob.get("clause") or "")
+        if kind == "guarded-by":
+            return pid == "C03"
+        if pid == "C03":
+            return False
+        if pid == "C04":
+            return "set_trial_state_values" in name or "create_trial" in name or "owns(" in clause
+        if pid == "C20":
+            return kind == "frame" or "j_others_same" in clause or "shared_unchanged" in clause or "is old(" in clause
+        return True
+    return _rel_mixed(pid, contract, ob)
+
+
+for _p in ("C01", "C03", "C04", "C20"):
+    PROPS[_p]["modules"] = PROPS[_p]["modules"] + ["contracts.journal"]
+    PROPS[_p]["relevant"] = _rel_all
+    PROPS[_p]["assumptions"] = PROPS[_p]["assumptions"] + [a for a in _J_ASSUME if a not in PROPS[_p]["assumptions"]] + [
+        "journal: abstract backend contract (append_logs appends in order, read_logs(k) returns records k..); single "
+        "client between two syncs for the method-level (C01) contracts; JSON round trip value-preserving"]
+    PROPS[_p]["witnesses"] = dict(PROPS[_p].get("witnesses", {}), **PROPS["C06"]["witnesses"])
